@@ -170,7 +170,7 @@ class Result:
 
 class Driver:
     def __init__(self, exp, chooser, script, on_launch=None, max_decisions=4000, max_items=60000,
-                 stuck_after_idle_waits=80, do_restart_sources=None, on_component_run=None):
+                 stuck_after_idle_waits=80, do_restart_sources=None, on_component_run=None, memoized=()):
         self.exp = exp
         self.chooser = chooser
         self.script = script
@@ -190,6 +190,8 @@ class Driver:
         self._last_sig = None
         self.on_component_run = on_component_run
         self.run_called = collections.Counter()       # ComponentState.run() invocations per node
+        self.finish_requested: Dict[str, str] = {}    # first final state handed to ComponentState.finish() per node
+        self.memoized = set(memoized)                  # nodes for which the (stubbed) memoization lookup hits
 
     # -- hooks ------------------------------------------------------------------------------------
     def _on_launch(self, ref, job, n, reason):
@@ -239,6 +241,12 @@ class Driver:
             drv.run_called[ref] += 1
             return orig_cs_run(cs)
         workflow.ComponentState.run = observed_run
+        orig_cs_finish = workflow.ComponentState.finish
+
+        def observed_finish(cs, finalState):
+            drv.finish_requested.setdefault(cs.specification.reference, finalState)
+            return orig_cs_finish(cs, finalState)
+        workflow.ComponentState.finish = observed_finish
         saved = dict(backends.backendGeneratorMap)
         for k in list(backends.backendGeneratorMap):
             backends.backendGeneratorMap[k] = self.backend
@@ -254,6 +262,13 @@ class Driver:
             self.controller = control.Controller(exp, do_restart_sources=self.do_restart_sources)
             ev = HarnessEvent(self)
             self.controller._event_scheduler = ev
+            if self.memoized:
+                # stand-in for the memoization database: the lookup hits for the chosen nodes and the "copy the
+                # outputs of the past run" step succeeds (both belong to C16's subject, not to scheduling)
+                self.controller.can_memoize = lambda comp, fuzzy: (
+                    {"stage": comp.stageIndex, "name": comp.specification.reference, "instance": "file://memo"}
+                    if comp.specification.reference in self.memoized else None)
+                self.controller._memoize_populate_component_workdir = lambda comp, doc: True
             for stage in exp._stages:
                 out = {"stage": stage.index}
                 try:
@@ -298,6 +313,7 @@ class Driver:
             return res
         finally:
             workflow.ComponentState.run = orig_cs_run
+            workflow.ComponentState.finish = orig_cs_finish
             backends.backendGeneratorMap.clear()
             backends.backendGeneratorMap.update(saved)
             try:
